@@ -1,3 +1,145 @@
 import Ptk.Proto
--- stub: the C02 model driver has not been written yet
-def main : IO Unit := Ptk.Proto.run fun _ => "bad-op"
+import Ptk.Gen.PyChars
+import Ptk.Model.C02
+open Ptk Ptk.Py Ptk.Proto Ptk.C02
+
+/-
+  Line protocol driver for the C02 model.  Every request carries the text (and cursor);
+  replies are space separated `key=value` tokens in a fixed order (see harness/c02.py).
+  Runtime character classes: `str.isspace` = Gen.isSpace, regex `\s` = Gen.reSpace,
+  `re.IGNORECASE` = ASCII case folding (the harness only uses letters whose case
+  variants are ASCII when ignore_case is on).
+-/
+
+def isSp : Char → Bool := Gen.isSpace
+def reSp : Char → Bool := Gen.reSpace
+
+def foldAscii (c : Char) : Char := if 65 ≤ c.toNat && c.toNat ≤ 90 then Char.ofNat (c.toNat + 32) else c
+def eqCS (a b : Char) : Bool := a == b
+def eqCI (a b : Char) : Bool := foldAscii a == foldAscii b
+
+def kv (k : String) (v : String) : String := k ++ "=" ++ v
+def encOI (o : Option Int) : String := encOptInt o
+def encOC (o : Option Char) : String := match o with | none => encStr [] | some c => encStr [c]
+def encNat (n : Nat) : String := toString n
+def encTexts (l : List Text) : String := encList encStr l
+def encNats (l : List Nat) : String := encList encNat l
+def unwords (l : List String) : String := " ".intercalate l
+
+def bools : List Bool := [false, true]
+
+def handle (toks : List String) : String :=
+  match toks with
+  | ["T", t] =>
+    match decStr t with
+    | some t =>
+      unwords [kv "lines" (encTexts (lines t)), kv "starts" (encNats (lineStarts t)),
+               kv "n" (encNat (lineCount t)), kv "empty_end" (encNat (emptyLineCountAtEnd isSp t))]
+    | none => "bad-op"
+  | ["I", t, i] =>
+    match decStr t, decNat i with
+    | some t, some i => let (r, c) := indexToPos t i; s!"{r} {c}"
+    | _, _ => "bad-op"
+  | ["R", t, r, c] =>
+    match decStr t, decInt r, decInt c with
+    | some t, some r, some c => encNat (rowColToIndex t r c)
+    | _, _, _ => "bad-op"
+  | ["V", t, c] =>
+    match decStr t, decNat c with
+    | some t, some c =>
+      let d : Doc := ⟨t, c⟩
+      unwords [kv "before" (encStr d.before), kv "after" (encStr d.after),
+               kv "lb" (encStr (lineBefore d)), kv "la" (encStr (lineAfter d)),
+               kv "cl" (encStr (currentLine d)), kv "row" (encNat (row d)), kv "col" (encNat (col d)),
+               kv "cc" (encOC (currentChar d)), kv "cb" (encOC (charBefore d)),
+               kv "first" (encBool (onFirstLine d)), kv "last" (encBool (onLastLine d)),
+               kv "atend" (encBool (isAtEnd d)), kv "ateol" (encBool (isAtEndOfLine d)),
+               kv "lws" (encStr (leadingWs isSp d)), kv "lfc" (encTexts (linesFromCurrent d))]
+    | _, _ => "bad-op"
+  | ["M", t, c] =>
+    match decStr t, decNat c with
+    | some t, some c =>
+      let d : Doc := ⟨t, c⟩
+      unwords [kv "sol0" (encInt (startOfLine isSp d false)), kv "sol1" (encInt (startOfLine isSp d true)),
+               kv "eol" (encInt (endOfLine d)), kv "lnb" (encInt (lastNonBlank isSp d)),
+               kv "sod" (encInt (startOfDocument d)), kv "eod" (encInt (endOfDocument d))]
+    | _, _ => "bad-op"
+  | ["COL", t, c, k] =>
+    match decStr t, decNat c, decInt k with
+    | some t, some c, some k => encInt (columnPos ⟨t, c⟩ k)
+    | _, _, _ => "bad-op"
+  | ["LR", t, c, n] =>
+    match decStr t, decNat c, decInt n with
+    | some t, some c, some n =>
+      let d : Doc := ⟨t, c⟩
+      unwords [kv "left" (encInt (cursorLeft d n)), kv "right" (encInt (cursorRight d n))]
+    | _, _, _ => "bad-op"
+  | ["UD", t, c, n, p] =>
+    match decStr t, decNat c, decInt n, decOptInt p with
+    | some t, some c, some n, some p =>
+      let d : Doc := ⟨t, c⟩
+      unwords [kv "up" (encInt (cursorUp d n p)), kv "down" (encInt (cursorDown d n p))]
+    | _, _, _, _ => "bad-op"
+  | ["PAR", t, c, n] =>
+    match decStr t, decNat c, decInt n with
+    | some t, some c, some n =>
+      let d : Doc := ⟨t, c⟩
+      unwords [kv "sop0" (encInt (startOfParagraph isSp d n false)),
+               kv "sop1" (encInt (startOfParagraph isSp d n true)),
+               kv "eop0" (encInt (endOfParagraph isSp d n false)),
+               kv "eop1" (encInt (endOfParagraph isSp d n true)),
+               kv "nml" (encOI (findNextMatchingLine (blankLine isSp) d n)),
+               kv "pml" (encOI (findPreviousMatchingLine (blankLine isSp) d n))]
+    | _, _, _ => "bad-op"
+  | ["F", t, c, s, n] =>
+    match decStr t, decNat c, decStr s, decInt n with
+    | some t, some c, some s, some n =>
+      let d : Doc := ⟨t, c⟩
+      let fs := bools.flatMap fun icl => bools.flatMap fun inc => bools.map fun ic =>
+        kv s!"find{encBool icl}{encBool inc}{encBool ic}"
+          (encOI (find (if ic then eqCI else eqCS) d s icl inc n))
+      let bs := bools.flatMap fun icl => bools.map fun ic =>
+        kv s!"fb{encBool icl}{encBool ic}" (encOI (findBackwards (if ic then eqCI else eqCS) d s icl n))
+      unwords (fs ++ bs ++ [kv "hm" (encBool (hasMatchAtCursor d s)),
+                            kv "fa0" (encNats (findAll eqCS d s)), kv "fa1" (encNats (findAll eqCI d s))])
+    | _, _, _, _ => "bad-op"
+  | ["W", t, c, n] =>
+    match decStr t, decNat c, decInt n with
+    | some t, some c, some n =>
+      let d : Doc := ⟨t, c⟩
+      let w := bools.flatMap fun W =>
+        [kv s!"nwb{encBool W}" (encOI (findNextWordBeginning reSp d n W)),
+         kv s!"nwe0{encBool W}" (encOI (findNextWordEnding reSp d false n W)),
+         kv s!"nwe1{encBool W}" (encOI (findNextWordEnding reSp d true n W)),
+         kv s!"pwb{encBool W}" (encOI (findPreviousWordBeginning reSp d n W)),
+         kv s!"pwe{encBool W}" (encOI (findPreviousWordEnding reSp d n W)),
+         kv s!"spw{encBool W}" (encOI (findStartOfPreviousWord reSp d n W))]
+      unwords w
+    | _, _, _ => "bad-op"
+  | ["WB", t, c] =>
+    match decStr t, decNat c with
+    | some t, some c =>
+      let d : Doc := ⟨t, c⟩
+      let b := bools.flatMap fun W => bools.flatMap fun lead => bools.map fun trail =>
+        let (s, e) := wordBoundaries reSp d W lead trail
+        kv s!"b{encBool W}{encBool lead}{encBool trail}" s!"{s},{e}"
+      unwords (b ++ [kv "wuc0" (encStr (wordUnderCursor reSp d false)),
+                     kv "wuc1" (encStr (wordUnderCursor reSp d true)),
+                     kv "wbc0" (encStr (wordBeforeCursor isSp reSp d false)),
+                     kv "wbc1" (encStr (wordBeforeCursor isSp reSp d true))])
+    | _, _ => "bad-op"
+  | ["BR", t, c, l, r, e] =>
+    match decStr t, decNat c, decStr l, decStr r, decOptInt e with
+    | some t, some c, some [l], some [r], some e => encOI (enclosingRight ⟨t, c⟩ l r e)
+    | _, _, _, _, _ => "bad-op"
+  | ["BL", t, c, l, r, s] =>
+    match decStr t, decNat c, decStr l, decStr r, decOptInt s with
+    | some t, some c, some [l], some [r], some s => encOI (enclosingLeft ⟨t, c⟩ l r s)
+    | _, _, _, _, _ => "bad-op"
+  | ["BM", t, c, s, e] =>
+    match decStr t, decNat c, decOptInt s, decOptInt e with
+    | some t, some c, some s, some e => encInt (matchingBracket ⟨t, c⟩ s e)
+    | _, _, _, _ => "bad-op"
+  | _ => "bad-op"
+
+def main : IO Unit := run handle
